@@ -21,8 +21,9 @@ import sys
 
 HERE = os.path.dirname(os.path.abspath(__file__))
 sys.path.insert(0, HERE)
-OUT = "/dev/shm/mutants"
-SRC = "/repo/src/hashstore/filehashstore.py"
+FNAME = os.environ.get("MUT_FILE", "filehashstore.py")
+SRC = "/repo/src/hashstore/" + FNAME
+OUT = "/dev/shm/mutants" if FNAME == "filehashstore.py" else "/dev/shm/mutants_" + FNAME.split(".")[0]
 
 
 def is_logging_call(n):
@@ -146,7 +147,9 @@ def run_tests(path):
         shutil.copytree("/repo/tests", wd + "/tests")
         for f in glob.glob("/repo/src/hashstore/*.py"):
             shutil.copy(f, wd + "/src/hashstore/")
-    open(wd + "/src/hashstore/filehashstore.py", "w").write(m["text"])
+    open(wd + "/src/hashstore/" + FNAME, "w").write(m["text"])
+    if FNAME != "filehashstore.py":
+        shutil.copy("/repo/src/hashstore/filehashstore.py", wd + "/src/hashstore/filehashstore.py")
     try:
         r = subprocess.run(["/venv/bin/python", "-m", "pytest", "-q", "-x", "-p", "no:cacheprovider", "--timeout=120"], cwd=wd,
                            env=dict(os.environ, PYTHONPATH=wd + "/src"), capture_output=True, text=True, timeout=900)
@@ -163,7 +166,7 @@ def check_one(path):
     from hsa.loader import read_sources
     from tools_recheck_fast import run_all
     base = read_sources("/repo/src/hashstore")
-    base["filehashstore.py"] = m["text"]
+    base[FNAME] = m["text"]
     name, viol, errs, rules, lines = run_all((path, base))
     m.update({"checks": viol, "errors": sorted(errs), "rules": rules})
     json.dump(m, open(path, "w"))
